@@ -259,6 +259,58 @@ def body(chk):
                             chk.report(site + ":range", f"range [{out[2][0]:.6g}, {out[3][-1]:.6g}] is not the interval image [{flo:.6g}, {fhi:.6g}] of the operand ranges", replay)
                     unit_case(opn, UNITS[ua], UNITS[ub], out, site + ":unit", replay)
 
+    # ---- histories: operands that are themselves results of earlier arithmetic ----
+    derivs = [("-U", lambda U, V, K: -U), ("U*V", lambda U, V, K: U * V), ("K/V", lambda U, V, K: K / V), ("U**2", lambda U, V, K: U ** 2),
+              ("U+U2", lambda U, V, K: U + U), ("2*U", lambda U, V, K: 2 * U), ("1/V", lambda U, V, K: 1 / V), ("U-1", lambda U, V, K: U - 1),
+              ("(U*V)/V", lambda U, V, K: (U * V) / V)]
+    n_hist = 1 if chk.tier == "quick" else 4
+    for rd in range(n_hist):
+        for ess in ESSENCES:
+            U, V, K = set_unit(make(ess, rng), "m"), set_unit(make(rng.choice(ESSENCES), rng), "s"), set_unit(make(ess, rng), "kg")
+            pool = []
+            for name, f in derivs:
+                try:
+                    d = f(U, V, K)
+                    pool.append((name, d, unit_vec(d.physical_quantity)))
+                except Exception as e:
+                    chk.report(f"UN:{ess}:history", f"{name} fails: {type(e).__name__}: {str(e)[:60]}", {"kind": "oracle", "essence": ess, "expr": name})
+            for name, d, dv in pool:
+                if dv is None:
+                    continue
+                L, R = bounds(d.construct)
+                for opn, op in OPS.items():
+                    c = rng.choice([1, 2, 0.5, -2])
+                    for reflected in (False, True):
+                        text = f"{c} {opn} ({name})" if reflected else f"({name}) {opn} {c}"
+                        site = f"UN:{ess}:history:{opn}:{'number-left' if reflected else 'number-right'}"
+                        out = run((lambda: op(c, d)) if reflected else (lambda: op(d, c)))
+                        chk.count(f"hist-num-{ess}-{opn}", key=(ess, name, opn, c, reflected, tuple(L), tuple(R)))
+                        replay = {"kind": "oracle", "essence": ess, "expr": text, "units": "U[m] V[s] K[kg]", "operand_unit": dv, "observed": out[:2] + out[4:] if out[0] == "ok" else out}
+                        ref = num_ref(opn, L, R, float(c), reflected)
+                        if ref is None:
+                            continue
+                        if out[0] != "ok":
+                            chk.report(site, f"{text} fails: {out[1]}", replay)
+                            continue
+                        if not (same(out[2], ref[0]) and same(out[3], ref[1])):
+                            chk.report(site + ":mirror", f"{text}: construct is not the mathematically correct image of the operand", replay)
+                        unit_case(opn, None if reflected else dv, dv if reflected else None, out, site + ":unit", replay)
+                # derived with derived
+                for name2, d2, dv2 in rng.sample(pool, min(3, len(pool))):
+                    if dv2 is None:
+                        continue
+                    for opn, op in OPS.items():
+                        out = run(lambda: op(d, d2))
+                        text = f"({name}) {opn} ({name2})"
+                        chk.count(f"hist-pair-{ess}-{opn}", key=(ess, name, name2, opn, tuple(L), tuple(R)))
+                        replay = {"kind": "oracle", "essence": ess, "expr": text, "units": "U[m] V[s] K[kg]", "operand_units": [dv, dv2], "observed": out[:2] + out[4:] if out[0] == "ok" else out}
+                        compatible = opn in ("mul", "div") or dv == dv2
+                        if not compatible and out[0] == "ok":
+                            chk.report(f"UN:{ess}:history:{opn}:dimension", f"{text}: adding quantities of incompatible dimension is not an error", replay)
+                        elif compatible and out[0] != "ok" and not (opn == "div" and bounds(d2.construct)[0][0] <= 0 <= bounds(d2.construct)[1][-1]):
+                            chk.report(f"UN:{ess}:history:{opn}", f"{text} fails: {out[1]}", replay)
+                        unit_case(opn, dv, dv2, out, f"UN:{ess}:history:{opn}:unit", replay)
+
     chunks = []
     CH = 400
     for s in range(0, len(items), CH):
@@ -287,7 +339,7 @@ def body(chk):
 
 RULE = ("uncertain numbers of every essence (interval, distribution, p-box, Dempster-Shafer) with positive, negative and zero-straddling supports (interval, DS), "
         "units from {m, s, kg, dimensionless, m/s, kg*m/s**2}; every operator + - * / with plain numbers {2, 3.0, 0.5, -2, -0.5, 1, 0, 10} on both sides, "
-        "unary minus, ** 2 and ** 3, and all 16 essence pairs with compatible and incompatible units. Construct compared with the same operation on the "
+        "unary minus, ** 2 and ** 3, all 16 essence pairs with compatible and incompatible units, and histories: the same operators applied to operands that are results of earlier arithmetic (-U, U*V, K/V, U**2, U+U, 2*U, 1/V, U-1, (U*V)/V). Construct compared with the same operation on the "
         "underlying construct(s) and with an independent elementwise mirror-image reference; the unit compared with the Coq unit-algebra model (exponent vectors). "
         "distinct key = (essence(s), unit(s), sign, operator, number, order, bounds of the operands)")
 TB = ["pint (unit parsing, Quantity arithmetic) is a library: its result is read back as an exponent vector over (m, s, kg) via to_root_units",
